@@ -35,6 +35,7 @@ type cacheEntry struct {
 	Status string  `json:"status"`
 	Solver string  `json:"solver"`
 	TimeS  float64 `json:"time_s"`
+	Second string  `json:"second,omitempty"` // "tried": a second opinion was sought (thorough tier)
 }
 
 func cachePath(dir, script string) string {
@@ -173,9 +174,11 @@ func Solve(vc *VC, opts SolveOpts) error {
 			for j := range jobs {
 				i, o := j.i, j.o
 				fb := fmt.Sprintf("%s.%d", base, i)
-				need2 := opts.SecondOpin && !o.Cover
+				// second opinions (thorough tier) are sought for the functional obligations; the
+				// per-instruction safety obligations are the bulk and are decided as in the quick tier
+				need2 := opts.SecondOpin && !o.Cover && o.Kind != "safety"
 				key := queryScript(vc, o, false)
-				if ce, ok := cacheGet(opts.CacheDir, key); ok && !need2 {
+				if ce, ok := cacheGet(opts.CacheDir, key); ok && (!need2 || ce.Second == "tried" || strings.Contains(ce.Solver, "+")) {
 					o.Status, o.Solver, o.TimeS, o.Cached = ce.Status, ce.Solver, ce.TimeS, true
 					if opts.Progress != nil {
 						opts.Progress(o)
@@ -200,7 +203,11 @@ func Solve(vc *VC, opts SolveOpts) error {
 					}
 				}
 				if err == nil && o.Status != "sat" {
-					cachePut(opts.CacheDir, key, cacheEntry{o.Status, o.Solver, o.TimeS})
+					ce := cacheEntry{Status: o.Status, Solver: o.Solver, TimeS: o.TimeS}
+					if need2 {
+						ce.Second = "tried"
+					}
+					cachePut(opts.CacheDir, key, ce)
 				}
 				if opts.Progress != nil {
 					opts.Progress(o)
@@ -265,7 +272,7 @@ func Solve(vc *VC, opts SolveOpts) error {
 			}
 			fb := fmt.Sprintf("%s.g%d", base, gi)
 			if err := solveOne(vc, syn, fb, []Solver{Solvers[0], Solvers[1]}, first, false, false); err == nil && syn.Status == "unsat" {
-				cachePut(opts.CacheDir, key, cacheEntry{syn.Status, syn.Solver, syn.TimeS})
+				cachePut(opts.CacheDir, key, cacheEntry{Status: syn.Status, Solver: syn.Solver, TimeS: syn.TimeS})
 				for _, m := range ms {
 					m.Status, m.Solver, m.TimeS = "unsat", syn.Solver, syn.TimeS/float64(len(ms))
 				}
